@@ -197,7 +197,27 @@ func genElems(t *rapid.T, min, max int, glob, small bool) []gn.Elem {
 	return out
 }
 
+// useListVals: in one scenario out of ten most values are leaf-lists over the same few members (other orders,
+// a repeated member), so that lists which differ only in order meet each other on one leaf.
+var useListVals bool
+
+func genListVal(t *rapid.T) gn.Val {
+	l := []gn.Val{{Kind: "int", I: int64(rapid.IntRange(0, 1).Draw(t, "l0"))}, {Kind: "string", S: "x"}}
+	switch rapid.IntRange(0, 3).Draw(t, "lshape") {
+	case 0:
+		// the same members in another order are another value
+		l[0], l[1] = l[1], l[0]
+	case 1:
+		// ... and so is a repeated member
+		l = append(l, l[1])
+	}
+	return gn.Val{Kind: "leaflist", L: l}
+}
+
 func genVal(t *rapid.T) gn.Val {
+	if useListVals && rapid.IntRange(0, 3).Draw(t, "listval") > 0 {
+		return genListVal(t)
+	}
 	if useLegacyVals && rapid.IntRange(0, 3).Draw(t, "legacy") > 0 {
 		return gn.Val{Kind: "deprecated", S: rapid.SampledFrom([]string{`1`, `2`, `"x"`, ``}).Draw(t, "dep")}
 	}
@@ -236,7 +256,7 @@ func genVal(t *rapid.T) gn.Val {
 	case 10:
 		return gn.Val{Kind: "bytes", S: rapid.SampledFrom([]string{"", "\x01"}).Draw(t, "by")}
 	default:
-		return gn.Val{Kind: "leaflist", L: []gn.Val{{Kind: "int", I: int64(rapid.IntRange(0, 1).Draw(t, "l0"))}, {Kind: "string", S: "x"}}}
+		return genListVal(t)
 	}
 }
 
@@ -397,7 +417,7 @@ func genScenario(prop string) func(t *rapid.T) *Scenario {
 	pr := profiles[prop]
 	return func(t *rapid.T) *Scenario {
 		if (prop == "C02" || prop == "C03") && rapid.IntRange(0, 199).Draw(t, "fan-out") == 123 {
-			useOddNames, useLegacyVals = false, false
+			useOddNames, useLegacyVals, useListVals = false, false, false
 			sc := &Scenario{Targets: rapid.IntRange(pr.minTargets, pr.maxTargets).Draw(t, "targets"), EventDriven: rapid.Bool().Draw(t, "eventdriven")}
 			sc.Feeder = rapid.SampledFrom(feederStyles).Draw(t, "feeder")
 			sc.Steps = genFanout(t, pr, sc.Targets)
@@ -405,6 +425,7 @@ func genScenario(prop string) func(t *rapid.T) *Scenario {
 		}
 		useOddNames = rapid.IntRange(0, 4).Draw(t, "odd-names") == 0
 		useLegacyVals = rapid.IntRange(0, 7).Draw(t, "legacy-values") == 3
+		useListVals = rapid.IntRange(0, 9).Draw(t, "list-values") == 4
 		useStarNames = (prop == "C02" || prop == "C03") && rapid.IntRange(0, 11).Draw(t, "star-names") == 7
 		sc := &Scenario{Targets: rapid.IntRange(pr.minTargets, pr.maxTargets).Draw(t, "targets")}
 		sc.EventDriven = rapid.IntRange(0, 3).Draw(t, "eventdriven") > 0
